@@ -591,6 +591,15 @@ func (x *Exec) loopHeader(fr *Frame, st *State, b, pred *ssa.BasicBlock, li *loo
 		kind = "preserve"
 	}
 	for i, c := range invs {
+		if name, ok := privateInvVar(c.E); ok {
+			// private(x): decided by the escape analysis of this path (zz_private.go)
+			g := TFalse
+			if x.isPrivateNow(st, x.evalSpec(env, &EIdent{name}).V) {
+				g = TTrue
+			}
+			x.emit(st, "inv", fmt.Sprintf("%s:%s:%d", lname, kind, i), g, false, c.Line)
+			continue
+		}
 		g := x.specBool(env, c.E)
 		x.emit(st, "inv", fmt.Sprintf("%s:%s:%d", lname, kind, i), g, false, c.Line)
 	}
@@ -644,6 +653,10 @@ func (x *Exec) loopHeader(fr *Frame, st *State, b, pred *ssa.BasicBlock, li *loo
 	}
 	env = x.loopEnv(fr, st, b)
 	for _, c := range invs {
+		if name, ok := privateInvVar(c.E); ok {
+			x.assumePrivate(st, x.evalSpec(env, &EIdent{name}).V)
+			continue
+		}
 		st.Assume(x.specBool(env, c.E))
 	}
 	if g := x.rangeIndexInv(fr, b); g != nil {
